@@ -178,8 +178,45 @@ func c03FmtItems(its []dbSync.VerifC03Item) string {
 }
 
 // RESP encoding of one source command (array of bulk strings), preceded by keep-alive newlines
+// c03InlineSafe: the command can be written as an inline command line (`name arg arg\r\n`) and read back unchanged
+func c03InlineSafe(c c03SrcCmd) bool {
+	ok := func(b []byte) bool {
+		if len(b) == 0 {
+			return false
+		}
+		for _, x := range b {
+			if x <= ' ' || x >= 0x7f {
+				return false
+			}
+		}
+		return true
+	}
+	if !ok([]byte(c.name)) || strings.ContainsAny(c.name[:1], "*$+-:") {
+		return false
+	}
+	for _, a := range c.args {
+		if !ok(a) {
+			return false
+		}
+	}
+	return true
+}
+
+// nl >= 10: the command travels as an INLINE command line behind nl-10 keep-alive newlines (the decoder accepts those at top level)
 func c03RespOf(c c03SrcCmd) []byte {
 	var b bytes.Buffer
+	if c.nl >= 10 {
+		for i := 10; i < c.nl; i++ {
+			b.WriteByte('\n')
+		}
+		b.WriteString(c.name)
+		for _, a := range c.args {
+			b.WriteByte(' ')
+			b.Write(a)
+		}
+		b.WriteString("\r\n")
+		return b.Bytes()
+	}
 	for i := 0; i < c.nl; i++ {
 		b.WriteByte('\n')
 	}
